@@ -109,12 +109,12 @@ def check_vars(case, ctx: Ctx):
 
 CLAUSES = [
     Clause("effects", check, gen=lambda t: gen.programs(profile(t)),
-           budget={"quick": (16, 80), "thorough": (16, 1200)},
+           budget={"quick": (16, 80), "thorough": (16, 600)},
            doc="C09.atomic (raising calls), C09.readonly, C09.rebuild"),
     Clause("eom_rebuild", check, gen=lambda t: gen.programs(profile_eom(t)),
-           budget={"quick": (8, 60), "thorough": (16, 800)},
+           budget={"quick": (8, 60), "thorough": (16, 400)},
            doc="EOM-heavy histories: atomicity of refused EOM controls and rebuild from the call record"),
     Clause("variables", check_vars, gen=lambda t: var_cases(t),
-           budget={"quick": (8, 60), "thorough": (16, 800)},
+           budget={"quick": (8, 60), "thorough": (16, 400)},
            doc="refused calls that use a declared variable for the first time"),
 ]
